@@ -427,6 +427,10 @@ impl<
     ) -> Result<Output, Error> {
         use crate::classic::crypto_box::*;
 
+        if self.tag.len() != CRYPTO_BOX_MACBYTES {
+            return Err(dryoc_error!("authentication tag has the wrong length"));
+        }
+
         let mut message = Output::new_bytes();
         message.resize(self.data.as_slice().len(), 0);
 
@@ -454,6 +458,10 @@ impl<
         precalc_secret_key: &PrecalcSecretKey,
     ) -> Result<Output, Error> {
         use crate::classic::crypto_box::crypto_box_open_detached_afternm;
+
+        if self.tag.len() != CRYPTO_BOX_MACBYTES {
+            return Err(dryoc_error!("authentication tag has the wrong length"));
+        }
 
         let mut message = Output::new_bytes();
         message.resize(self.data.as_slice().len(), 0);
@@ -483,6 +491,12 @@ impl<
 
         match &self.ephemeral_pk {
             Some(epk) => {
+                if self.tag.len() != CRYPTO_BOX_MACBYTES || epk.len() != CRYPTO_BOX_PUBLICKEYBYTES {
+                    return Err(dryoc_error!(
+                        "authentication tag or ephemeral public key has the wrong length"
+                    ));
+                }
+
                 let mut nonce = Nonce::new_byte_array();
                 crypto_box_seal_nonce(
                     nonce.as_mut_array(),
